@@ -117,9 +117,10 @@ Proof.
   destruct (rec_snapshot _) as [[s3 tr3]|] eqn:E3; [|discriminate].
   destruct (rec_committed P s3) as [| | |s4 tr4] eqn:E4; try discriminate.
   match goal with |- context [scan_configs P ?S ?F ?N] => destruct (scan_configs P S F N) as [s5|] eqn:ES end; [|discriminate].
-  intros H; inversion H; subst s5 tr. clear H.
-  pose proof (scan_configs_fsm _ _ _ _ _ ES) as F5.
-  apply scan_configs_durable in ES. destruct ES as (_ & _ & A5 & _ & _ & _ & _ & _ & _ & C5).
+  fold (rec_fin s5). intros H; inversion H; subst s tr. clear H.
+  assert (F5 : v_fsmLast (rec_fin s5) = v_fsmLast s4)
+    by (rewrite <- (scan_configs_fsm _ _ _ _ _ ES); unfold rec_fin; destruct (_ && _); reflexivity).
+  apply scan_configs_durable_fin in ES. destruct ES as (_ & _ & A5 & _ & _ & _ & _ & _ & _ & C5).
   set (s2 := set_lastlog (set_vol_term (fresh_volatile img) (d_term img)) (e_idx le) (e_term le)) in *.
   assert (H3 : d_log s3 = d_log img /\ d_pcommit s3 = d_pcommit img /\ v_commit s3 = 0 /\ v_fsmLast s3 = (0, 0) /\
                v_applied s3 = match find sn_ok (list_snaps (d_snaps img)) with Some sn => sn_idx sn | None => 0 end).
